@@ -159,10 +159,15 @@ type built struct {
 	table string
 	rows  []interface{}
 	calls []call
+	// contexts: the calls are spread over this many batching contexts (requests) that run at
+	// the same time; slowSelectUs keeps every SELECT in flight for a while so that batches of
+	// different contexts overlap
+	contexts     int
+	slowSelectUs int
 }
 
 func gen(t *rapid.T) built {
-	b := built{table: rapid.SampledFrom(sw.Tables).Draw(t, "table")}
+	b := built{table: rapid.SampledFrom(sw.Tables).Draw(t, "table"), contexts: rapid.SampledFrom([]int{1, 1, 2, 3}).Draw(t, "contexts"), slowSelectUs: rapid.SampledFrom([]int{0, 0, 300, 1500}).Draw(t, "slowselect")}
 	n := rapid.IntRange(0, 12).Draw(t, "nrows")
 	for i := 0; i < n; i++ {
 		b.rows = append(b.rows, sw.GenRow(t, b.table, i+1))
@@ -237,7 +242,19 @@ func check(b built) (nt bool, labels []string, sig string, err error) {
 	}
 	nBefore := len(eng.Statements())
 	// together, under one batching context
-	bctx := batch.WithBatching(ctx)
+	nctx := b.contexts
+	if nctx < 1 {
+		nctx = 1
+	}
+	bctxs := make([]context.Context, nctx)
+	for i := range bctxs {
+		bctxs[i] = batch.WithBatching(ctx)
+	}
+	if b.slowSelectUs > 0 {
+		d := time.Duration(b.slowSelectUs) * time.Microsecond
+		eng.SetSelectHooks(func() { time.Sleep(d) }, nil)
+		defer eng.SetSelectHooks(nil, nil)
+	}
 	batched := make([]outcome, len(b.calls))
 	var wg sync.WaitGroup
 	start := make(chan struct{})
@@ -252,7 +269,7 @@ func check(b built) (nt bool, labels []string, sig string, err error) {
 				}
 			}()
 			<-start
-			batched[i] = runCall(bctx, db, b.table, c)
+			batched[i] = runCall(bctxs[i%len(bctxs)], db, b.table, c)
 		}()
 	}
 	close(start)
